@@ -533,4 +533,66 @@ def sharedPublicKey (S : LibSecp256k1) (c : CurveParams) (d : Int) (Q : Pt) : Ex
 
 end Secp
 
+/-! ### an executable `LibSecp256k1` made of the pure-Python model (non-vacuity witness of `LibSecpOk`) -/
+
+/-- libsecp256k1 played by the pure model: public-key objects are points, signature objects pairs `(r, s)` -/
+def pureSecp (c : CurveParams) : LibSecp256k1 where
+  Pubkey := Pt
+  Sig := Int × Int
+  zeroPubkey := none
+  zeroSig := (0, 0)
+  pubkeyCreate pk e32 :=
+    let e : Int := (beNat e32 : Int)
+    if 0 < e ∧ e < c.n then
+      match Curve.rawMul c e with
+      | .ok R => (true, R)
+      | .error _ => (false, pk)
+    else (false, pk)
+  pubkeySerialize pk _ :=
+    match pk with
+    | some (x, y) => (4 : UInt8) :: (beBytes x.toNat 32 ++ beBytes y.toNat 32)
+    | none => List.replicate 65 0
+  pubkeyParse pk buf len :=
+    let x : Int := (beNat (slice buf 1 33) : Int)
+    let y : Int := (beNat (buf.drop 33) : Int)
+    if len = 65 ∧ buf.length = 65 ∧ buf.headD 0 = 4 ∧ x < c.p ∧ y < c.p ∧ containsXY c x y then (true, some (x, y))
+    else (false, pk)
+  pubkeyTweakMul pk t32 :=
+    let t : Int := (beNat t32 : Int)
+    if 0 < t ∧ t < c.n then
+      match Curve.multiply c pk t with
+      | .ok R => (true, R)
+      | .error _ => (false, pk)
+    else (false, pk)
+  ecdsaSign sig msg key nonce :=
+    let z : Int := (beNat msg : Int)
+    let d : Int := (beNat key : Int)
+    let k? : Option Int :=
+      match nonce with
+      | some k32 => some (beNat k32 : Int)
+      | none =>
+        match Pycoin.RFC6979.deterministicGenerateK c.n d z with
+        | .ok k => some k
+        | .error _ => none
+    match k? with
+    | none => (false, sig)
+    | some k =>
+      match Curve.rawMul c k, Curve.inverseN c k with
+      | .ok (some (x, _)), .ok ki =>
+        let r := x % (c.n : Int)
+        let s := (ki * (z + d * r % (c.n : Int))) % (c.n : Int)
+        (true, (r, if s > (c.n : Int) / 2 then (c.n : Int) - s else s))
+      | _, _ => (false, sig)
+  sigSerializeCompact sig := beBytes sig.1.toNat 32 ++ beBytes sig.2.toNat 32
+  sigParseCompact sig buf :=
+    let r : Int := (beNat (buf.take 32) : Int)
+    let s : Int := (beNat (buf.drop 32) : Int)
+    if r < c.n ∧ s < c.n then (true, (r, s)) else (false, sig)
+  sigNormalize sig := (sig.1, if sig.2 > (c.n : Int) / 2 then (c.n : Int) - sig.2 else sig.2)
+  ecdsaVerify sig msg pk :=
+    let z : Int := (beNat msg : Int)
+    match Curve.verify c 0 pk z sig.1 sig.2 with
+    | .ok true => if sig.2 ≤ (c.n : Int) / 2 then 1 else 0
+    | _ => 0
+
 end Pycoin.Native
